@@ -1,7 +1,14 @@
 (* C04 for the shared Publication: every operation of a history, from the invariant. *)
-Require Import V.Base.MachineInt V.Generated.GenConsts V.Model.Descriptor V.Model.LogBase V.Model.Appender
-               V.Model.Publication V.Proofs.DescriptorProofs V.Proofs.AppenderProofs V.Proofs.PublicationProofs
-               V.Proofs.BulkProofs.
+Require Import V.Base.MachineInt.
+Require Import V.Generated.GenConsts.
+Require Import V.Model.Descriptor.
+Require Import V.Model.LogBase.
+Require Import V.Model.Appender.
+Require Import V.Model.Publication.
+Require Import V.Proofs.DescriptorProofs.
+Require Import V.Proofs.AppenderProofs.
+Require Import V.Proofs.PublicationProofs.
+Require Import V.Proofs.BulkProofs.
 From Coq Require Import ZifyBool.
 Open Scope Z_scope.
 
